@@ -29,7 +29,7 @@ import appsim
 import fakenet
 import hostile
 from appsim import Page, html
-from runner import unjson
+from runner import unjson, enc
 
 RULE = ('grammar-aware mutations of valid HTTP responses (status line, header spellings, lengths, chunk framing, trailers, '
         'content codings, redirects, cookies), hostile HTML/CSS/JS/sitemap/robots documents, FTP replies, PASV answers and '
@@ -793,6 +793,8 @@ def stream_ftp_proc(ctx, n):
 # ------------------------------------------------------------------ entry points
 def replay(ctx, case, kind=None, where=None):
     s = case.get('stream')
+    if s == 'status':
+        return stream_status(ctx, 1, [case['line']])
     if s == 'e2e':
         r = e2e_worker(([tuple(p) for p in case['pages']], case['seed'], case['conc'], case.get('opt') or {}))
         ctx.case(('e2e', case['seed']))
@@ -934,6 +936,47 @@ def run_static(ctx):
     skeleton.check(ctx)
 
 
+def stream_status(ctx, n, lines=None):
+    """The status line: whatever the server writes, what is accepted carries a code below 1000 (model-tied:
+    `status_code_below_1000` is a theorem about the model's parseStatusLine; the table column, the log lines and the
+    archive writers take the code as a small number)."""
+    from wpull.protocol.http.request import Response
+    rng = ctx.subrng('status')
+    if lines is None:
+        lines = []
+        for _ in range(n):
+            ver = rng.choice([b'HTTP/1.1', b'HTTP/1.0', b'HTTP/2.0', b'HTTP/11.22', b'HTTP/1.', b'http/1.1', b'ICY', b'HTTP/1.1\t'])
+            code = rng.choice([b'200', b'404', b'999', b'1000', b'0200', b'7', b'42', b'', b'2147483648', b'9223372036854775807',
+                               b'9223372036854775808', b'1' + b'0' * rng.randint(3, 40), b'-1', b'+200', b'2 00', b'20x', b'\xb2\xb3', b'0x1f'])
+            sep = rng.choice([b' ', b' ', b'\t', b'  ', b'', b' \t '])
+            reason = rng.choice([b'OK', b'', b'Not Found', b'12345', b'\xe9', b'a\rb', b'x' * 50])
+            line = ver + sep + code + rng.choice([b' ', b'', b'\t']) + reason + rng.choice([b'', b'\r\n', b'\n', b'\r'])
+            if rng.random() < 0.25:
+                line = hostile.mutate(rng, line)
+            lines.append(line)
+    replies = ctx.model.ask(['http py status ' + enc(l) for l in lines])
+    for line, rep in zip(lines, replies):
+        case = {'stream': 'status', 'line': line}
+        try:
+            ver, code, reason = Response.parse_status_line(line)
+            real = '%s %d %s' % (enc(ver), code, enc(reason))
+        except ValueError:
+            code, real = None, 'none'
+        except Exception as e:  # noqa
+            cls, where = classify(e)
+            ctx.case(('status', line), tags=['status:raised'])
+            ctx.fail(cls, where, case, 'parse_status_line raised %r' % e)
+            continue
+        ctx.case(('status', line), nontrivial=code is not None, tags=['status:' + ('accepted' if code is not None else 'refused')])
+        if code is not None and not 0 <= code < 1000:
+            ctx.fail('status-code-out-of-range', 'Response.parse_status_line', case,
+                     'the status line %r is accepted with the code %d: the URL table, the log and the archive writers take a code below 1000' % (line[:60], code))
+        if rep != real:
+            ctx.disagree('status', case, rep, real)
+    if lines:
+        ctx.sample({'stream': 'status', 'line': lines[0]})
+
+
 def run(ctx):
     run_static(ctx)
     for case in load_corpus(ctx):
@@ -946,6 +989,7 @@ def run(ctx):
     stream_pasv(ctx, ctx.scale(1500, 30000))
     stream_cache(ctx, ctx.scale(1500, 30000))
     stream_ftp_proc(ctx, ctx.scale(500, 8000))
+    stream_status(ctx, ctx.scale(1500, 30000))
     stream_e2e(ctx, ctx.scale(100, 1200))
 
 
